@@ -33,7 +33,8 @@ Section AnyOperators.
 
   (* the transformer classes: fpat = sticky_pat extended by PPad, PPadToMultiple, PCollapse, PNoRepeats, PChanged, PDiff,
      PRound (scalar arguments), PWrap, PCounter, PStutter (pattern or scalar count), PLoop, PSubsequence (scalar offset /
-     length), each over ANY pattern of the fragment, nested to any depth: once next() has raised StopIteration - whether
+     length), PIndexOf, PDictKey, PArrayIndex (operands scalars or patterns; PIndexOf / PDictKey also over a literal list /
+     dict), each over ANY pattern of the fragment, nested to any depth: once next() has raised StopIteration - whether
      because the input ended, a padding was used up, the repeats of a loop ran out or a pattern-valued count ended - no
      later next() returns a value, at ANY fuel f2 of the model (so the statement does not depend on the fuel at which
      the StopIteration was observed) *)
@@ -51,7 +52,7 @@ Section AnyOperators.
   Proof. exact sticky_fpat. Qed.
 
   (* for EVERY class of the model: a state that answers StopIteration without changing answers it for ever.
-     Full statement, open for the remaining finite classes (PConcatenate PIndexOf PArrayIndex PDict PDictKey, PSequence
+     Full statement, open for the remaining finite classes (PConcatenate, PDict, PArrayIndex over a literal list, PSequence
      with pattern items, PRound with pattern arguments), validated by the correspondence and the stickiness oracle only:
        forall f p p', finite_fragment p -> no_pattern_valued_terminating_parameter p ->
                       step f p = (Stop, p') -> quiet f p'                                        *)
